@@ -377,6 +377,11 @@ class Interp:
                 if isinstance(idx, SliceV) and isinstance(idx.lo, Poly) and isinstance(idx.hi, Poly):
                     return BufSlice(base, idx.lo, idx.hi)
                 return Opaque(U(e))
+            if isinstance(base, Bytes):
+                if isinstance(idx, SliceV) and isinstance(idx.lo, Poly) and isinstance(idx.hi, Poly) and \
+                        isinstance(base.offset, Poly):
+                    return Bytes(base.offset + idx.lo, idx.hi - idx.lo, base.site)
+                return Opaque(U(e))
             if isinstance(base, (Arr, ArrView)):
                 v = ArrView(base if isinstance(base, Arr) else base.arr, idx)
                 self.emit(st, 'subscript', func, e, arr=v.arr, index=idx, view_of=base)
@@ -425,7 +430,7 @@ class Interp:
         if rng is not None:
             # comprehension over range(..): evaluate the element once with a symbolic loop variable
             lo, count, enum, it_node = rng
-            name = '%s@%s.L%d' % (U(g.target).replace(' ', ''), func.name, e.lineno)
+            name = '%s@%s.L%d' % (_first_name(g.target), func.name, e.lineno)
             k = self.T.declare(name, 0, count, kind='loop', count=count, start=lo, node=e)
             loop = Loop(name, count, e)
             loop.lo = lo
@@ -855,7 +860,7 @@ class Interp:
         enum = False
         if rng is not None:
             lo, count, enum, _ = rng
-        name = '%s@%s.L%d' % (U(s.target).replace(' ', ''), func.name, s.lineno)
+        name = '%s@%s.L%d' % (_first_name(s.target), func.name, s.lineno)
         if count is not None:
             k = T.declare(name, 0, count, kind='loop', count=count, start=lo, node=s)
             loop = Loop(name, count, s)
@@ -889,6 +894,12 @@ class Interp:
         elif not res:
             res.append(Outcome(st, 'fall'))
         return res
+
+
+def _first_name(t):
+    if isinstance(t, (ast.Tuple, ast.List)) and t.elts:
+        return _first_name(t.elts[-1])
+    return U(t).replace(' ', '')
 
 
 class ClassVal:
